@@ -388,8 +388,7 @@ class SwiftBackend(SwiftBaseBackend):
                 if f.doc else undocumented) for f in data_type.fields if f.doc]
         elif is_union_type(data_type):
             if objc is False:
-                arg_list = [(fmt_var(data_type.name), '{}.{}'.format(
-                            fmt_class(namespace.name), fmt_class(data_type.name)))]
+                arg_list = [(fmt_var(data_type.name), arg_type)]
             else:
                 arg_list = [(fmt_var(data_type.name), '{}'.format(fmt_objc_type(data_type)))]
 
